@@ -355,6 +355,11 @@ def mk_rop(letter, rng, nt, bo, atom):
         return dict(op='append', items=[nd_spec(small_values(rng, bad, dtype_str(nt, bo)))])
     if letter == 'asw':
         return dict(op='append', items=[item_spec(rng, nt, bo, atom, 2, 'swapped')])
+    if letter == 'astr':     # a numeric string: NumPy makes ONE number of it
+        return dict(op='append', items=[dict(kind='numstr', value=rng.choice(['12', '3', '1e3']), bytes=rng.random() < 0.3)])
+    if letter == 'amask':
+        d = nd_spec(rand_array(rng, nt, bo, (2,) + t), 'C')
+        return dict(op='append', items=[dict(d, kind='masked')])
     if letter == 'abig':     # long enough to overflow an int8 / uint8 index
         return dict(op='iterappend', items=[item_spec(rng, nt, bo, atom, 1, 'nd'),
                                             nd_spec(small_values(rng, (rng.choice([130, 260]),) + t, dtype_str(nt, bo))),
@@ -368,7 +373,8 @@ def mk_rop(letter, rng, nt, bo, atom):
     if letter == 'itbad':
         return dict(op='iterappend', items=[item_spec(rng, nt, bo, atom, 2),
                                             rng.choice([dict(kind='raise'), dict(kind='scalar', value=3),
-                                                        dict(kind='str')]),
+                                                        dict(kind='str'), dict(kind='numstr', value='12'),
+                                                        dict(kind='numstr', value='7', bytes=True)]),
                                             item_spec(rng, nt, bo, atom, 1)])
     if letter in ('t-1', 't0', 't1', 't2'):
         return dict(op='truncate', index=int(letter[1:]))
@@ -395,9 +401,9 @@ def mk_rop(letter, rng, nt, bo, atom):
     raise ValueError(letter)
 
 
-RALPHABET = ['a0', 'a1', 'a3', 'al', 'aod', 'asw', 'abig', 'abad', 'it0', 'it2', 'itbad', 't-1', 't0', 't1', 't2',
+RALPHABET = ['a0', 'a1', 'a3', 'al', 'aod', 'asw', 'astr', 'amask', 'abig', 'abad', 'it0', 'it2', 'itbad', 't-1', 't0', 't1', 't2',
              'tbig', 't-big', 'tni', 'ro', 'mr', 'mrw', 'ms', 'mc']
-RCOMPACT = ['a0', 'a1', 'a3', 'aod', 'asw', 'it2', 't-1', 't-big', 't0', 't1', 'ro', 'mr', 'abad']
+RCOMPACT = ['a0', 'a1', 'a3', 'aod', 'asw', 'astr', 'it2', 't-1', 't-big', 't0', 't1', 'ro', 'mr', 'abad']
 
 
 def rhistory_case(rng, nt, bo, atom, indextype, sublens, letters, mode='r+', metadata=None):
